@@ -250,6 +250,19 @@ func (m *Machine) block(cond func() bool, what string) {
 			}
 			if m.cfg.Sched == 0 {
 				next = ord[0] // deterministic schedule: run the lowest-numbered enabled goroutine
+			} else if !selfEnabled && m.cfg.Opts["blockfree"] == "0" {
+				// blockfree=0: the choice of the successor of a BLOCKED goroutine also draws on the
+				// budget (a deviation from the lowest-numbered enabled goroutine costs one switch);
+				// with the budget used up the successor is the lowest-numbered enabled goroutine
+				if p.switches >= m.cfg.Sched {
+					next = ord[0]
+				} else {
+					i := m.choose(len(ord))
+					if i != 0 {
+						p.switches++
+					}
+					next = ord[i]
+				}
 			} else {
 				next = ord[m.choose(len(ord))]
 			}
